@@ -19,7 +19,7 @@ TECHNIQUE = "runtime monitoring: generated shapes and query points through the r
 RULE = ("prim: random sphere / 1-4 layer sphere (radii or thickness form) / ellipsoid, 400 cloud points + near-surface "
         "points on both sides; csg: every ordered pair of {sphere, ellipsoid} x {Union, Difference, Intersection}; "
         "voxel: volumes at 3 spacings; spheres: collections of 1-8 members incl. exactly touching, nested, concentric, "
-        "layered members, near-touching at (1+-1e-9); reject: malformed inputs. non-trivial = the analytic oracle "
+        "layered members, near-touching at (1+-1e-9), index_at of the owning member; integer-typed sizes and centres; reject: malformed inputs (sets, nan). non-trivial = the analytic oracle "
         "classified >=1 query point inside and >=1 outside (or >=1 pair for collections); distinct by rounded case JSON")
 ASSUMPTIONS = ["containment is the strict inequality the indicator functions define",
                "largest_overlap may floor at 0 for non-overlapping collections (documented behaviour)"]
